@@ -30,9 +30,11 @@ Ops == {
   O("rec_add_dur", "Rec", "Dur", "Rec"), O("dur_radd_rec", "Rec", "Dur", "Rec"), O("rec_sub_dur", "Rec", "Dur", "Rec"),
   O("rec_iter2", "Rec", "-", "TP"), O("rec_getitem", "Rec", "-", "TP"), O("rec_is_valid", "Rec", "TP", "-"),
   O("rec_next", "Rec", "TP", "TP"), O("rec_prev", "Rec", "TP", "TP"), O("rec_first_after", "Rec", "TP", "TP"),
+  O("ttp_add_tp", "TTP", "TP", "TP"), O("tp_add_ttp", "TP", "TTP", "TP"), O("ttp_str", "TTP", "-", "-"), O("ttp_hash", "TTP", "-", "-"),
+  O("ttp_to_utc", "TTP", "-", "TTP"), O("ttp_props", "TTP", "-", "-"), O("ttp_cmp", "TTP", "TTP", "-"),
   O("rec_eq", "Rec", "Rec", "-"), O("rec_hash", "Rec", "-", "-"), O("rec_str", "Rec", "-", "-"), O("rec_anchors", "Rec", "-", "TP")}
 
-Pool0 == <<"TP", "TP", "Dur", "Dur", "Zone", "Rec", "Rec">>
+Pool0 == <<"TP", "TP", "Dur", "Dur", "Zone", "Rec", "Rec", "TTP">>
 Init == pool = Pool0 /\ hist = << >>
 
 Apply(o, i, j) ==
@@ -48,6 +50,6 @@ Spec == Init /\ [][Next]_vars
 \* C16 at the level of the design: no action rewrites or removes a slot
 Immutable  == [][\A i \in DOMAIN pool : i \in DOMAIN pool' /\ pool'[i] = pool[i]]_vars
 AppendOnly == [][IsPrefix(pool, pool')]_vars
-TypeOK == \A i \in DOMAIN pool : pool[i] \in {"TP", "Dur", "Zone", "Rec"}
+TypeOK == \A i \in DOMAIN pool : pool[i] \in {"TP", "Dur", "Zone", "Rec", "TTP"}
 EmitGen == Len(hist) = MaxDepth => PrintT(<<"GEN", ToJson(hist)>>)
 =============================================================================
